@@ -12,7 +12,7 @@ from typing import Any, Dict, List, Optional, Tuple
 
 from hypothesis import strategies as st
 
-from .. import drive_api, gen, model
+from .. import drive_api, e2e, gen, model
 from ..engine_common import engine_case, history_classes
 from ..runner import Outcome
 
@@ -35,7 +35,7 @@ REL = Fraction(1, 10**25)
 
 
 def budget(tier: str) -> Dict[str, Any]:
-    return {"shards": 16, "examples": 1000 if tier == "quick" else 15000}
+    return {"shards": 16, "examples": 1000 if tier == "quick" else 15000, "examples2": 8 if tier == "quick" else 150}
 
 
 @st.composite
@@ -69,7 +69,7 @@ def resum(asset: str, txs: List[model.Tx], fractions: List[Dict[str, Any]]) -> T
     return sums, counts
 
 
-def compare_yearly(out: Outcome, expected: Dict[Key, List[Fraction]], yearly: List[Dict[str, Any]], label: str) -> None:
+def compare_yearly(out: Outcome, expected: Dict[Key, List[Fraction]], yearly: List[Dict[str, Any]], label: str, rel: Fraction = REL) -> None:
     seen: Dict[Key, List[Fraction]] = {}
     for line in yearly:
         key = (line["year"], line["asset"], line["type"], bool(line["long"]))
@@ -90,12 +90,38 @@ def compare_yearly(out: Outcome, expected: Dict[Key, List[Fraction]], yearly: Li
             exp = values[i]
             got = seen[key][i]
             scale = max(abs(exp), abs(values[1]), abs(values[2]), Fraction(1, 10**20))
-            if abs(got - exp) > REL * scale:
+            if abs(got - exp) > rel * scale:
                 out.fail("yearly_sum_mismatch", f"{label}: line {key}: {name} = {got}, sum over its detail fractions = {exp}")
                 return
 
 
+E2E_HIST = gen.GenCfg(min_steps=6, max_steps=16, max_exchanges=2, max_holders=2, long_gaps=True, bulk_prob=0.02)
+E2E_REL = Fraction(1, 10**11)  # cells of the summary table are doubles
+
+
+def e2e_judge(out: Outcome, asset: str, txs: List[model.Tx], dump: Dict[str, Any]) -> None:
+    """'Gain / Loss Summary' of the asset's Tax sheet against the re-summed 'Gain / Loss Detail' rows of the same report (year
+    and type taken from the generated row of the event, LONG / SHORT from the detail row)."""
+    expected, counts = resum(asset, txs, dump["fractions"])
+    compare_yearly(out, expected, dump["yearly"], "report summary vs report detail", rel=E2E_REL)
+    if len({k[0] for k in expected}) >= 2 and any(n >= 2 for n in counts.values()):
+        out.nontrivial = True
+    if any((k[0], k[1], k[2], not k[3]) in expected for k in expected):
+        out.classes.add("long_and_short_in_same_year_and_type")
+
+
+def strategy2(tier: str) -> Any:
+    """End-to-end tier (rp2v/e2e.py): real runs with and without a to-date; summary lines vs sums over the detail rows."""
+    return e2e.file_strategy(E2E_HIST, countries=("us", "us", "generic", "ie", "jp"), to_dates=True)
+
+
+def minimize(case: Dict[str, Any], clause: str) -> Dict[str, Any]:
+    return e2e.minimize(case, clause, evaluate) if case.get("e2e") else case
+
+
 def evaluate(case: Dict[str, Any]) -> Outcome:
+    if case.get("e2e"):
+        return e2e.evaluate_assets(case, "c06e", lambda out, asset, txs, dump, schedule: e2e_judge(out, asset, txs, dump))
     out = Outcome()
     txs = model.make_txs(case["rows"])
     out.classes |= history_classes(txs, case["schedule"])
